@@ -1,11 +1,12 @@
 /-
 Model of the closed-form transform pairs in abel/tools/transform_pairs.py (profiles 1, 2, 3, 5, 7: the polynomial ones with
 exact rational coefficients), written the way the code writes them:  `a n r = √(n² − r²)`, the `source` expression and the
-`projection` expression per branch.  Profile 4 (coefficients published as rounded decimals) and profile 6 (not a polynomial)
+`projection` expression per branch.  (earlier: profile 4 (coefficients published as rounded decimals) and profile 6 (not a polynomial)
 are measured by quadrature in the check, not modelled.
 -/
 import PyAbel.Model.Scalar
 import PyAbel.Model.Distributions
+import PyAbel.Model.Dasch
 namespace PyAbel.Profiles
 open PyAbel.Distr (pow)
 
@@ -72,6 +73,14 @@ def proj4 [OfScientific α] (r : α) : α :=
   else
     -c0 * a1 - c2 * a1 * pow r 2 + pow r 2 * ((155.56 : α) + (55.5525 : α) * pow r 2) * log ((n 1 + a1) / r)
 
+/-- profile 6 (Buie et al., Table 1, № 7), as coded: `exp(1.1**2*(1 - 1/(1 - r**2)))/sqrt(1 - r**2)**3` -/
+def source6 [OfScientific α] [HasExp α] (r : α) : α :=
+  exp (pow (1.1 : α) 2 * (n 1 - n 1 / (n 1 - pow r 2))) / pow (sqrt (n 1 - pow r 2)) 3
+
+/-- … and `exp(1.1**2*(1 - 1/(1 - r**2)))*sqrt(pi)/1.1/a(1, r)` -/
+def proj6 [OfScientific α] [HasExp α] [HasPi α] (r : α) : α :=
+  exp (pow (1.1 : α) 2 * (n 1 - n 1 / (n 1 - pow r 2))) * sqrt HasPi.pi / (1.1 : α) / a (n 1) r
+
 /-- profile 5: the unit disc -/
 def source5 (_ : α) : α := n 1
 def proj5 (r : α) : α := n 2 * a (n 1) r
@@ -81,12 +90,13 @@ def source7 (r : α) : α := (n 1 + n 10 * pow r 2 - n 23 * pow r 4 + n 12 * pow
 def proj7 (r : α) : α := a (n 1) r * (n 19 + n 34 * pow r 2 - n 125 * pow r 4 + n 72 * pow r 6) * n 8 / n 105
 
 /-- dispatch used by the driver -/
-def pair [OfScientific α] (k : Nat) (r : α) : Option (α × α) :=
+def pair [OfScientific α] [HasExp α] [HasPi α] (k : Nat) (r : α) : Option (α × α) :=
   match k with
   | 1 => some (source1 r, proj1 r)
   | 2 => some (source2 r, proj2 r)
   | 3 => some (source3 r, proj3 r)
   | 4 => some (source4 r, proj4 r)
+  | 6 => some (source6 r, proj6 r)
   | 5 => some (source5 r, proj5 r)
   | 7 => some (source7 r, proj7 r)
   | _ => none
